@@ -229,7 +229,15 @@ pub fn history(seed: u64, idx: u64) -> Case {
                             // let it panic now and wait until it is over: a later closure on the same
                             // value can only start once the panicking one has let go of the mutex
                             gate2.release();
-                            let _ = w.interact(|_| ()).await;
+                            // barrier that does not go through interact(): the closure holds the value's mutex
+                            // since before `started`; once try_lock() stops saying WouldBlock it has let go
+                            for _ in 0..20_000 {
+                                let busy = matches!(w.try_lock(), Err(std::sync::TryLockError::WouldBlock));
+                                if !busy {
+                                    break;
+                                }
+                                tokio::time::sleep(Duration::from_micros(200)).await;
+                            }
                             log.note_async();
                             results.lock().unwrap().push(format!("{}:panic:panic:poisoned={}", i, w.is_mutex_poisoned()));
                         } else {
